@@ -121,13 +121,13 @@ def observe(trace, res, solver, prog, oid, cfg0, meta):
          "enq": {l: attempts[l] - drained.get(l, 0) for l in lines},
          "waits": {l: waits.get(l, []) for l in lines}, "loads": {l: loads.get(l, 0) for l in lines}}
     if res["abort"] == "":
-        o["vals"] = {k: int(v) for k, v in res["values"].items()}
+        o["vals"] = {k: progs_mod.plain_value(v) for k, v in res["values"].items()}
         o["forms"] = res["forms"]
         o["unimpl"] = res["unimpl"]
         o["missing"] = res["missing"]
         o["blocked"] = res["blocked"]
     else:
-        o["vals"] = {k: v for k, v in solver._v.values.items()}
+        o["vals"] = {k: progs_mod.plain_value(v) for k, v in solver._v.values.items()}
         o["forms"] = sorted(solver.forms.keys())
         o["unimpl"], o["missing"], o["blocked"] = [], {}, {}
     return o
@@ -162,6 +162,10 @@ def scenarios_for(prog, x, rng, per_prog):
     total = {i: rng.choice(["0", "1"]) for i in inputs}
     for k in (1, 2, 3):
         out.append(dict(cfg0={}, answers=dict(total), prompt=True, at={k: "REFUSE"}, sched="nat" if k != 2 else "rnd", req=None, key=None))
+    if inputs:
+        badfile = {i: rng.choice(["0", "1"]) for i in inputs if rng.random() < 0.5}
+        badfile[rng.choice(inputs)] = "bad"          # supplied, but not a valid value: must never be asked for, never read as missing
+        out.append(dict(cfg0=badfile, answers=dict(total), prompt=True, sched="nat", req=None, key=None))
     kind = rng.choice(["EOF", "BAD"])
     out.append(dict(cfg0={}, answers=dict(total), prompt=True, at={rng.choice([1, 2]): kind}, sched="nat", req=None, key=None))
     return out
@@ -322,10 +326,10 @@ def run(pid, tier):
         t0 = time.time()
         cov["states"], cov["transitions"] = 0, 0
         actions = {}
-        CH = 100                     # programs per TLC run (the constant is parsed and kept in memory per run)
+        CH = 40                      # programs per TLC run (the constant is parsed and kept in memory per run)
         for off in range(0, len(small), CH):
             prepare_model_dir(work, small[off:off + CH])
-            mc = common.run_tlc("MCSolver", cfgp, cwd=work, timeout=3000 if tier == "thorough" else 900, coverage=(tier == "thorough"), heap="12g")
+            mc = common.run_tlc("MCSolver", cfgp, cwd=work, timeout=3000 if tier == "thorough" else 900, coverage=(tier == "thorough"), heap="24g")
             if mc.violated:
                 for v in mc.violated:
                     rep.violation("model:%s" % v, mc.error_excerpt(80), {"kind": "tlc-counterexample", "property_formula": v})
